@@ -73,8 +73,12 @@ def make_args(xgi, fn, argseed):
     """fresh arguments for one call (re-created for the second call), or None = uncovered"""
     r = random.Random(argseed)
     if fn in c16.GENS:
-        params = c16.gen_params(r, fn)
-        if fn == "uniform_erdos_renyi_hypergraph" and r.random() < 0.5:
+        params = None
+        if fn in ("fast_random_hypergraph", "uniform_erdos_renyi_hypergraph", "uniform_HPPM") and r.random() < 0.3:
+            params = c16.sparse_large_params(r, fn)  # tiny p, large n
+        if params is None:
+            params = c16.gen_params(r, fn)
+        if fn == "uniform_erdos_renyi_hypergraph" and params["n"] <= 9 and r.random() < 0.5:
             params["p"] = r.choice([0.2, 0.5, 0.8])
         return ("gen", params)
     if fn in NETWORK_FNS:
